@@ -823,6 +823,75 @@ pub fn run_child(ctx: &Ctx) -> Report {
         base += n_a;
     }
 
+    // ---- (f3) (round 14) alignment at larger offsets in what an error message may echo and clip: an ASCII run of every
+    //       length 0..=300 and within 24 of 512, 1024, 2048, 4096, 8192, 16384, 32768 and 65536, followed by one of five
+    //       byte tails (a single byte >= 0x80, two of them, and raw UTF-8 of 2, 3 and 4 bytes), placed in 8 positions of
+    //       the authentication headers: a parameter without '=', an unknown parameter's value, the Credential value, the
+    //       Signature value, the algorithm word, the whole header after a wrong scheme, the X-Amz-Date header and the
+    //       X-Amz-Security-Token header
+    {
+        let mut lens: Vec<usize> = (0..=300).collect();
+        for c in [512usize, 1024, 2048, 4096, 8192, 16384, 32768, 65536] {
+            lens.extend(c - 24..=c + 24);
+        }
+        let tails: [&[u8]; 5] = [b"\xe9", b"\xe9\xfc", "\u{e9}".as_bytes(), "\u{65e5}\u{672c}".as_bytes(), "\u{1f600}".as_bytes()];
+        let positions = 8usize;
+        // mode 0: the run length counts from the start of the inserted text; mode 1: from the start of the header
+        // value (the run is shortened by what precedes it), so that the tail straddles every listed offset of the
+        // WHOLE value as well
+        let n_a = (2 * positions * lens.len() * tails.len()) as u64;
+        let b = base;
+        let lens_ref = &lens;
+        let part = par_sweep(n_a, |i, st| {
+            let mut x = i as usize;
+            let absolute = x % 2 == 1;
+            x /= 2;
+            let tail = tails[x % tails.len()];
+            x /= tails.len();
+            let k = lens_ref[x % lens_ref.len()];
+            let pos = x / lens_ref.len();
+            let plan = e2e::base_plan(Carrier::Header);
+            let cfg = Cfg::basic(now);
+            let built = build(&plan);
+            let mut w = WireReq::from_wire(&built.wire);
+            let ai = w.headers.iter().position(|h| h.0 == "Authorization").unwrap();
+            let auth = w.headers[ai].1.clone();
+            let find = |hay: &[u8], needle: &[u8]| hay.windows(needle.len()).position(|w| w == needle).unwrap();
+            let at = find(&auth, b", SignedHeaders");
+            let (prefix, suffix): (Vec<u8>, Vec<u8>) = match pos {
+                0 => ([&auth[..], b", "].concat(), vec![]),
+                1 => ([&auth[..], b", Foo="].concat(), vec![]),
+                2 => (auth[..at].to_vec(), auth[at..].to_vec()),
+                3 => (auth.clone(), vec![]),
+                4 => (b"AWS4-".to_vec(), auth[16..].to_vec()),
+                5 => (b"Basic ".to_vec(), vec![]),
+                // (7, absolute): the algorithm and one parameter without '=' are the whole header
+                7 if absolute => (b"AWS4-HMAC-SHA256 ".to_vec(), vec![]),
+                _ => (vec![], vec![]),
+            };
+            let run = if absolute { k.saturating_sub(prefix.len()) } else { k };
+            let mut text = vec![b'a'; run];
+            text.extend_from_slice(tail);
+            text.extend_from_slice(b"bcd");
+            let value = [&prefix[..], &text[..], &suffix[..]].concat();
+            match pos {
+                0..=5 => w.headers[ai].1 = value,
+                6 => {
+                    for h in w.headers.iter_mut() {
+                        if h.0.eq_ignore_ascii_case("x-amz-date") {
+                            h.1 = value.clone();
+                        }
+                    }
+                }
+                _ if absolute => w.headers[ai].1 = value,
+                _ => w.headers.push(("X-Amz-Security-Token".into(), value)),
+            }
+            total(b + i as u64, "clipped-text-alignment", w, &cfg, &std_prov, st);
+        });
+        st = st.merge(part);
+        base += n_a;
+    }
+
     // ---- (g) builders, (h) error conversions, (i) derivation extremes
     {
         use scratchstack_aws_signature::auth::SigV4AuthenticatorResponse;
@@ -971,7 +1040,7 @@ pub fn run_child(ctx: &Ctx) -> Report {
     Report {
         stats: st,
         rule: format!(
-            "every case runs under catch_unwind inside a child process whose address space is limited to 12 GiB and whose run time is limited by the parent (abnormal termination, allocation without bound and a case that never returns = violation), with overflow checks and debug assertions on, alternately with log formatting on, against a strict key provider (panics when called without readiness; not ready at once / answer pending for a share of the cases): (a) the C13 defect product on both carriers x {{default,S3,fold}} x 3 requirement sets (incl. non-ASCII and empty names); (b) every printable ASCII byte substituted and inserted at every position of 5 URI templates, every two-character escape %c1c2 over 94^2 in path, query value and query name, 40 special URIs (asterisk-, authority-, absolute-form, truncated escapes, 40-60 kB paths / queries) x 2 carriers x 3 options; (b') 45 request targets of every form (origin, absolute, authority incl. bare host and IPv6, asterisk, empty, fragment, scheme without path) x 6 form bodies x 3 content types x {{default,S3,fold,S3+fold}} x carrier x HTTP/1.0, 1.1, 2, 3 x with / without a Host header, so that the target is rebuilt under form folding; (c) every byte HeaderValue admits (tab, 0x20-0x7E, 0x80-0xFF) substituted and inserted at every{} position of Authorization / X-Amz-Date / Date / Content-Type / token values; (c') every empty, one-byte and two-byte value of a Content-Type parameter (charset in two spellings, boundary, a trailing parameter; form and JSON types) and of the Credential / SignedHeaders / Signature fields; (c3) Authorization headers made of every sequence of up to 4 (thorough 5) fields over ten kinds (Credential / SignedHeaders / Signature each well-formed, wrong or empty, an unknown parameter, a bare word, an empty field) with ', ' or ',' between them, each with and without the logger formatting its records; (c4) requests with 24574 / 24575 / 24576 distinct header names (the most the http crate admits) and 32700 values of one name, plain and as a folded form POST with Content-Length, under 3 option sets on both carriers; (c'') SignedHeaders lists of 10..104 entries that differ in letter case only, in 7 structured arrangements x 8 rotations and 60 (thorough 400) fixed shuffles per length, on both carriers; (d) bodies of {} lengths (around 21845, 32768, 65535, up to 200000) x 8 fills (expanding bytes, pairs, UTF-8, separators, escapes) x 11 content types x fold x carrier; all 256 one-byte and every {}th two-byte body as a UTF-8 form; {} charset labels x all one-byte, every {}th two-byte and 4 special bodies; (e) 9 capacities x secret lengths 0..100 x 4 fills; (f) every C16 timestamp string on both carriers and through the unstable API; (f') server clocks within 901 s of the smallest and largest DateTime<Utc>, the epoch, years 0 / 1 / 9999 / 10000 and the 32-bit limits x 11 request dates whose UTC year is -1, 0, 9999 or 10000; (f'') an ASCII run of every length 0..300 followed by 2-, 3- and 4-byte characters in each of 11 text inputs (path, climbing path, query value / name, signed header value, access key, session token, date, charset parameter, form value, configured region / service), once in a plausible request and once made to be refused; (g) every subset of set fields of the three builders; (h) every SignatureError shape x 4 messages through Display/Debug/source/code/status/From<Box>; (i) derivation with empty / non-ASCII / 10 kB scopes and NaiveDate::MIN/MAX/year 0/-1/10000; canonicalisation helpers on degenerate and 1 MiB inputs. Oracle: a value or an error, never a panic, abort, hang or non-SignatureError. states = (sweep, outcome class)",
+            "every case runs under catch_unwind inside a child process whose address space is limited to 12 GiB and whose run time is limited by the parent (abnormal termination, allocation without bound and a case that never returns = violation), with overflow checks and debug assertions on, alternately with log formatting on, against a strict key provider (panics when called without readiness; not ready at once / answer pending for a share of the cases): (a) the C13 defect product on both carriers x {{default,S3,fold}} x 3 requirement sets (incl. non-ASCII and empty names); (b) every printable ASCII byte substituted and inserted at every position of 5 URI templates, every two-character escape %c1c2 over 94^2 in path, query value and query name, 40 special URIs (asterisk-, authority-, absolute-form, truncated escapes, 40-60 kB paths / queries) x 2 carriers x 3 options; (b') 45 request targets of every form (origin, absolute, authority incl. bare host and IPv6, asterisk, empty, fragment, scheme without path) x 6 form bodies x 3 content types x {{default,S3,fold,S3+fold}} x carrier x HTTP/1.0, 1.1, 2, 3 x with / without a Host header, so that the target is rebuilt under form folding; (c) every byte HeaderValue admits (tab, 0x20-0x7E, 0x80-0xFF) substituted and inserted at every{} position of Authorization / X-Amz-Date / Date / Content-Type / token values; (c') every empty, one-byte and two-byte value of a Content-Type parameter (charset in two spellings, boundary, a trailing parameter; form and JSON types) and of the Credential / SignedHeaders / Signature fields; (c3) Authorization headers made of every sequence of up to 4 (thorough 5) fields over ten kinds (Credential / SignedHeaders / Signature each well-formed, wrong or empty, an unknown parameter, a bare word, an empty field) with ', ' or ',' between them, each with and without the logger formatting its records; (c4) requests with 24574 / 24575 / 24576 distinct header names (the most the http crate admits) and 32700 values of one name, plain and as a folded form POST with Content-Length, under 3 option sets on both carriers; (c'') SignedHeaders lists of 10..104 entries that differ in letter case only, in 7 structured arrangements x 8 rotations and 60 (thorough 400) fixed shuffles per length, on both carriers; (d) bodies of {} lengths (around 21845, 32768, 65535, up to 200000) x 8 fills (expanding bytes, pairs, UTF-8, separators, escapes) x 11 content types x fold x carrier; all 256 one-byte and every {}th two-byte body as a UTF-8 form; {} charset labels x all one-byte, every {}th two-byte and 4 special bodies; (e) 9 capacities x secret lengths 0..100 x 4 fills; (f) every C16 timestamp string on both carriers and through the unstable API; (f') server clocks within 901 s of the smallest and largest DateTime<Utc>, the epoch, years 0 / 1 / 9999 / 10000 and the 32-bit limits x 11 request dates whose UTC year is -1, 0, 9999 or 10000; (f'') an ASCII run of every length 0..300 followed by 2-, 3- and 4-byte characters in each of 11 text inputs (path, climbing path, query value / name, signed header value, access key, session token, date, charset parameter, form value, configured region / service), once in a plausible request and once made to be refused; (f3) an ASCII run of every length 0..300 and within 24 of each power of two 512 .. 65536 followed by 5 byte tails (bytes >= 0x80, raw UTF-8 of 2 / 3 / 4 bytes) in 8 positions of the authentication headers (a parameter without '=', an unknown parameter, Credential, Signature, the algorithm word, a foreign scheme, X-Amz-Date, X-Amz-Security-Token, the algorithm followed by nothing else), the run counted from the start of the inserted text and from the start of the header value, so that whatever clips an echoed header meets every alignment; (g) every subset of set fields of the three builders; (h) every SignatureError shape x 4 messages through Display/Debug/source/code/status/From<Box>; (i) derivation with empty / non-ASCII / 10 kB scopes and NaiveDate::MIN/MAX/year 0/-1/10000; canonicalisation helpers on degenerate and 1 MiB inputs. Oracle: a value or an error, never a panic, abort, hang or non-SignatureError. states = (sweep, outcome class)",
             if thorough { "" } else { " (every 3rd for Authorization)" }, lens.len(), two_stride, LABELS.len(), label_stride
         ),
         bounds: json!({"cases": base}),
